@@ -105,6 +105,15 @@ func genC14(t *rapid.T) any {
 	}
 	if hasAsyncCol && rapid.IntRange(0, 5).Draw(t, "tail") == 0 {
 		c.Tail = rapid.SampledFrom([]string{"distinct", "orderby"}).Draw(t, "tailkind")
+	} else if rapid.IntRange(0, 5).Draw(t, "nested") == 0 {
+		// multi-dimensional FROM; ONCE there is outside the statement (once per query vs. per inner array)
+		c.Tail = "nested"
+		for i := range c.Items {
+			if c.Items[i].Q == "once" {
+				c.Items[i].Q = ""
+				c.Items[i].Tag = "p" + c.Items[i].Tag[1:]
+			}
+		}
 	}
 	return c
 }
@@ -134,7 +143,11 @@ func (c *C14Case) sql(qualified bool) string {
 	if c.Tail == "distinct" {
 		sel = "SELECT DISTINCT "
 	}
-	s := sel + strings.Join(parts, ", ") + " FROM t"
+	from := "t"
+	if c.Tail == "nested" {
+		from = "nn"
+	}
+	s := sel + strings.Join(parts, ", ") + " FROM " + from
 	if c.Where != nil {
 		s += " WHERE " + sq.Render(c.Where, nil)
 	}
@@ -211,7 +224,7 @@ func checkC14(c *C14Case) Result {
 		}
 	}()
 	sqlQ := c.sql(true)
-	out := Run(map[string]any{"t": val.Copy(c.Rows)}, sqlQ, Opts{})
+	out := Run(c.doc(), sqlQ, Opts{})
 	res.Execs++
 	// observations at the moment Exec returned
 	inj.mu.Lock()
@@ -308,8 +321,12 @@ func checkC14(c *C14Case) Result {
 			}
 		}
 	}
-	if c.Tail == "" {
-		if !seqEqual(out.Rows, normList(want)) {
+	if c.Tail == "" || c.Tail == "nested" {
+		got := out.Rows
+		if c.Tail == "nested" {
+			got = flattenOne(got)
+		}
+		if !seqEqual(got, normList(want)) {
 			res.Violation = fmt.Sprintf("%s\n  expected %s\n  got      %s", ctx, val.JSON(normList(want)), val.JSON(out.Rows))
 			return res
 		}
@@ -318,7 +335,7 @@ func checkC14(c *C14Case) Result {
 	injEpoch.Add(1)
 	injReset(0, 0)
 	sqlU := c.sql(false)
-	plain := Run(map[string]any{"t": val.Copy(c.Rows)}, sqlU, Opts{})
+	plain := Run(c.doc(), sqlU, Opts{})
 	res.Execs++
 	if !plain.OK() {
 		res.Discard = "unqualified comparison query fails: " + plain.Describe()
@@ -334,6 +351,28 @@ func checkC14(c *C14Case) Result {
 		return res
 	}
 	return res
+}
+
+func (c *C14Case) doc() map[string]any {
+	rows := val.Copy(c.Rows).([]any)
+	d := map[string]any{"t": rows}
+	if c.Tail == "nested" {
+		h := len(rows) / 2
+		d["nn"] = []any{val.Copy(rows[:h]), val.Copy(rows[h:])}
+	}
+	return d
+}
+
+func flattenOne(rows []any) []any {
+	out := []any{}
+	for _, r := range rows {
+		if in, ok := r.([]any); ok {
+			out = append(out, in...)
+		} else {
+			out = append(out, r)
+		}
+	}
+	return out
 }
 
 func checkC14Imm(c *C14Case) Result {
@@ -368,7 +407,7 @@ func init() {
 			"permutation: arrival order, reversed and random permutations; a pump lets a sequential engine proceed). Observed when Exec returns: " +
 			"every ASYNC and SPINASYNC call was invoked exactly once per selected row and has completed; every ASYNC column holds the value of the " +
 			"pure function for that row; SPIN/SPINASYNC add no column; a ONCE call ran once and every row shows its value; unqualified calls ran once " +
-			"per row; the whole result equals that of the same query without qualifiers (also with an ASYNC column under DISTINCT or as ORDER BY key); " +
+			"per row; the whole result equals that of the same query without qualifiers (also with an ASYNC column under DISTINCT or as ORDER BY key, and over a multi-dimensional FROM); " +
 			"ASYNC/SPIN/SPINASYNC on immediate functions (registered and built-in) are rejected with an error. Non-trivial: >=2 selected rows, >=1 " +
 			"gated call and a completion order different from arrival order, or an immediate-function case.",
 		Assumptions: []string{
